@@ -65,6 +65,61 @@ Theorem C09_upload_dir_actual : forall fixed cwd fs nm ch dst wi chc,
 Proof. exact upload_gen_dir_actual. Qed.
 Print Assumptions C09_upload_dir_actual.
 
+(* The same, path by path, for EVERY input with at least one child and both versions: the directory is
+   made (empty) at the destination A, the tree is laid out below the anchor A', nothing else changes. *)
+Theorem C09_upload_dir_view : forall fixed cwd fs nm ch dst wi chc,
+  let dst' := final_destination nm dst wi in
+  let A := resolve cwd dst' in
+  let A' := resolve cwd (upload_anchor fixed wi dst' nm) in
+  ch <> [] ->
+  lookup fs cwd = Some (Dir chc) ->
+  wf_tree (Dir ch) ->
+  no_file_on fs A ->
+  compat (ensure_dir fs A) A' (Dir ch) ->
+  exists fs', upload_gen fixed cwd fs nm (Dir ch) dst wi = Ok fs' /\
+              forall q, look fs' q = placed (ensure_dir fs A) A' (Dir ch) q.
+Proof. exact upload_gen_dir_view. Qed.
+Print Assumptions C09_upload_dir_view.
+
+(* F1 universally (not only the two witnesses): with the code as found every child n of the source is
+   missing from the documented place A/n and sits at A'/n = cwd/<last component>/n instead, whenever A/n
+   was free before and is neither on the way to nor below the anchor (which excludes only contrived
+   coincidences such as upload("foo","foo") of a tree that itself contains foo/n). *)
+Theorem C09_upload_dir_child_misplaced : forall cwd fs nm ch dst wi chc n t,
+  let dst' := final_destination nm dst wi in
+  let A := resolve cwd dst' in
+  let A' := resolve cwd (bug_anchor wi dst' nm) in
+  assoc n ch = Some t ->
+  lookup fs cwd = Some (Dir chc) ->
+  wf_tree (Dir ch) ->
+  no_file_on fs A ->
+  compat (ensure_dir fs A) A' (Dir ch) ->
+  look fs (A ++ [n]) = None ->
+  is_prefix A' (A ++ [n]) = false ->
+  is_prefix (A ++ [n]) A' = false ->
+  exists fs', upload cwd fs nm (Dir ch) dst wi = Ok fs' /\
+              look fs' (A ++ [n]) = None /\
+              placed fs A (Dir ch) (A ++ [n]) = Some (entry_of t) /\
+              look fs' (A' ++ [n]) = Some (entry_of t).
+Proof. exact upload_dir_child_misplaced. Qed.
+Print Assumptions C09_upload_dir_child_misplaced.
+
+Example C09_child_misplaced_satisfiable :
+  let fs := Dir [] in
+  let ch := [(n_a, File [1])] in
+  let dst' := final_destination n_foo (mkp false [n_x]) false in
+  let A := resolve [] dst' in
+  let A' := resolve [] (bug_anchor false dst' n_foo) in
+  assoc n_a ch = Some (File [1]) /\
+  lookup fs [] = Some (Dir []) /\
+  wf_tree (Dir ch) /\
+  no_file_on fs A /\
+  compat (ensure_dir fs A) A' (Dir ch) /\
+  look fs (A ++ [n_a]) = None /\
+  is_prefix A' (A ++ [n_a]) = false /\
+  is_prefix (A ++ [n_a]) A' = false.
+Proof. exact child_misplaced_satisfiable. Qed.
+
 (* The statement about the code /repo has NOW (repo_upload, the form read from the source).
    Every tree (empty directories, empty files, equal names on different levels), every destination
    (empty, one or several components, absolute), both write_into, every cwd: the upload succeeds
